@@ -634,3 +634,201 @@ Section Members.
       apply in_flat_map. exists e. split; [exact He | exact Hin].
   Qed.
 End Members.
+
+(* ------------------------------------------------------------------ message level *)
+
+Lemma field_eqb_eq : forall a b, field_eqb a b = true -> a = b.
+Proof.
+  intros [ta na ya ea] [tb nb yb eb] H. unfold field_eqb in H. simpl in H.
+  apply andb_true_iff in H. destruct H as [H He].
+  apply andb_true_iff in H. destruct H as [H Hy].
+  apply andb_true_iff in H. destruct H as [Ht Hn].
+  apply str_eqb_eq in Ht. apply N.eqb_eq in Hn, Hy. apply Bool.eqb_prop in He. congruence.
+Qed.
+
+Lemma known_In : forall Sc f, known Sc f = true -> In f (s_fields Sc).
+Proof.
+  intros Sc f H. unfold known in H. apply existsb_exists in H. destruct H as [g [Hg E]].
+  apply field_eqb_eq in E. subst. exact Hg.
+Qed.
+
+Lemma wf_member_known : forall Sc mem, wf_member Sc mem = true -> In (mfield mem) (s_fields Sc).
+Proof.
+  intros Sc mem H. apply known_In. destruct mem; simpl in H; apply andb_true_iff in H; apply H.
+Qed.
+
+Section Top.
+  Variable value_check : field -> str -> option exc.
+  Variable Sc : schema.
+  Variable M : list member.
+  Hypothesis Hft : NoDup (map f_tag (s_fields Sc)).
+  Hypothesis Hfn : NoDup (map f_name (s_fields Sc)).
+  Hypothesis Hset : wf_set Sc (s_header Sc ++ M) = true.
+
+  Let HM := s_header Sc ++ M.
+
+  Lemma set_nodup : NoDup (map mtag (s_header Sc ++ M)).
+  Proof. unfold wf_set in Hset. apply andb_true_iff in Hset. apply nodupb_NoDup. apply Hset. Qed.
+
+  Lemma set_wf_member : forall mem, In mem (s_header Sc ++ M) -> wf_member Sc mem = true.
+  Proof.
+    unfold wf_set in Hset. apply andb_true_iff in Hset. destruct Hset as [_ H].
+    rewrite forallb_forall in H. exact H.
+  Qed.
+
+  Lemma name_determines : forall mem fld,
+    In mem (s_header Sc ++ M) -> In fld (s_fields Sc) -> name_is fld mem = true -> mfield mem = fld.
+  Proof.
+    intros mem fld Hm Hf Hn. unfold name_is in Hn. apply N.eqb_eq in Hn.
+    apply (NoDup_map_inj _ _ f_name (s_fields Sc)); [exact Hfn | | exact Hf | exact Hn].
+    apply wf_member_known. apply set_wf_member. exact Hm.
+  Qed.
+
+  Lemma member_for_spec : forall t mem,
+    member_for Sc M t = Some mem <-> In mem (s_header Sc ++ M) /\ mtag mem = t.
+  Proof.
+    intros t mem. unfold member_for, tag2field. split.
+    - destruct (find (fun f => str_eqb (f_tag f) t) (s_fields Sc)) as [fld|] eqn:Ef; [|discriminate].
+      apply find_some in Ef. destruct Ef as [Hfld Et]. apply str_eqb_eq in Et.
+      destruct (set_contains (s_header Sc) fld).
+      + intro H. apply find_some in H. destruct H as [Hin Hn].
+        assert (In mem (s_header Sc ++ M)) as Hin' by (apply in_or_app; left; exact Hin).
+        split; [exact Hin'|]. unfold mtag. rewrite (name_determines mem fld Hin' Hfld Hn). exact Et.
+      + destruct (set_contains M fld); simpl; [|discriminate].
+        intro H. apply find_some in H. destruct H as [Hin Hn].
+        assert (In mem (s_header Sc ++ M)) as Hin' by (apply in_or_app; right; exact Hin).
+        split; [exact Hin'|]. unfold mtag. rewrite (name_determines mem fld Hin' Hfld Hn). exact Et.
+    - intros [Hin Ht].
+      assert (HF : In (mfield mem) (s_fields Sc)) by (apply wf_member_known, set_wf_member; exact Hin).
+      destruct (find (fun f => str_eqb (f_tag f) t) (s_fields Sc)) as [fld|] eqn:Ef.
+      + apply find_some in Ef. destruct Ef as [Hfld Et]. apply str_eqb_eq in Et.
+        assert (fld = mfield mem) as ->.
+        { apply (NoDup_map_inj _ _ f_tag (s_fields Sc)); [exact Hft | exact Hfld | exact HF |].
+          rewrite Et. symmetry. exact Ht. }
+        assert (Hself : name_is (mfield mem) mem = true) by (unfold name_is; apply N.eqb_refl).
+        assert (Hget : forall l, (forall x, In x l -> In x (s_header Sc ++ M)) -> In mem l ->
+                                 set_get l (mfield mem) = Some mem).
+        { intros l Hl Hml. unfold set_get.
+          destruct (find (name_is (mfield mem)) l) as [mem'|] eqn:Eg.
+          - apply find_some in Eg. destruct Eg as [Hin' Hn']. f_equal.
+            apply (NoDup_map_inj _ _ mtag (s_header Sc ++ M)); [apply set_nodup | apply Hl; exact Hin' | exact Hin |].
+            unfold mtag. rewrite (name_determines mem' (mfield mem) (Hl _ Hin') HF Hn'). reflexivity.
+          - exfalso. apply (find_none _ _ Eg) in Hml. congruence. }
+        destruct (set_contains (s_header Sc) (mfield mem)) eqn:Ec.
+        * unfold set_contains in Ec. apply existsb_exists in Ec. destruct Ec as [mem' [Hin' Hn']].
+          assert (mem' = mem) as ->.
+          { assert (In mem' (s_header Sc ++ M)) as Hi by (apply in_or_app; left; exact Hin').
+            apply (NoDup_map_inj _ _ mtag (s_header Sc ++ M)); [apply set_nodup | exact Hi | exact Hin |].
+            unfold mtag. rewrite (name_determines mem' (mfield mem) Hi HF Hn'). reflexivity. }
+          apply Hget; [|exact Hin']. intros x Hx. apply in_or_app. left. exact Hx.
+        * assert (HinM : In mem M).
+          { apply in_app_or in Hin. destruct Hin as [Hh|Hm]; [|exact Hm]. exfalso.
+            unfold set_contains in Ec.
+            assert (existsb (name_is (mfield mem)) (s_header Sc) = true); [|congruence].
+            apply existsb_exists. exists mem. split; assumption. }
+          assert (set_contains M (mfield mem) = true) as ->.
+          { unfold set_contains. apply existsb_exists. exists mem. split; assumption. }
+          simpl. apply Hget; [|exact HinM]. intros x Hx. apply in_or_app. right. exact Hx.
+      + exfalso. apply (find_none _ _ Ef) in HF. simpl in HF. unfold mtag in Ht. rewrite Ht in HF.
+        rewrite str_eqb_refl in HF. discriminate.
+  Qed.
+
+  Lemma body_loop_ok : forall es,
+    body_loop value_check Sc M es = Ok <->
+    (forall t v, In (t, v) es -> t <> TAG10 ->
+       exists mem, member_for Sc M t = Some mem /\ validate_member value_check mem v = Ok).
+  Proof.
+    induction es as [|[t v] r IH]; simpl.
+    - split; [intros _ t v [] | reflexivity].
+    - destruct (str_eqb t TAG10) eqn:E10.
+      + rewrite IH. apply str_eqb_eq in E10. split.
+        * intros H t' v' [E|Hin] Hne; [inversion E; subst; contradiction | apply H; assumption].
+        * intros H t' v' Hin Hne. apply H; [right; exact Hin | exact Hne].
+      + apply str_eqb_neq in E10. destruct (member_for Sc M t) as [mem|] eqn:Em.
+        * destruct (validate_member value_check mem v) eqn:Ev.
+          -- rewrite IH. split.
+             ++ intros H t' v' [E|Hin] Hne; [inversion E; subst; exists mem; auto | apply H; assumption].
+             ++ intros H t' v' Hin Hne. apply H; [right; exact Hin | exact Hne].
+          -- split; [discriminate|]. intro H. exfalso.
+             destruct (H t v (or_introl eq_refl) E10) as [mem' [Hm' Hv']]. congruence.
+        * split; [discriminate|]. intro H. exfalso.
+          destruct (H t v (or_introl eq_refl) E10) as [mem' [Hm' _]]. congruence.
+  Qed.
+
+  Lemma body_loop_class : forall es,
+    (forall f s e, In s (flat_map (fun e => value_strs (snd e)) es) -> value_check f s = Some e -> e = EFIXMessage) ->
+    ok_or_fme (body_loop value_check Sc M es).
+  Proof.
+    induction es as [|[t v] r IH]; intro Hc; simpl.
+    - left. reflexivity.
+    - assert (Hr : ok_or_fme (body_loop value_check Sc M r)).
+      { apply IH. intros f s e Hin. apply Hc. simpl. apply in_or_app. right. exact Hin. }
+      destruct (str_eqb t TAG10); [exact Hr|].
+      destruct (member_for Sc M t) as [mem|]; [|right; reflexivity].
+      destruct (validate_member_class value_check v mem) as [E|E].
+      + intros f s e Hin. apply Hc. simpl. apply in_or_app. left. exact Hin.
+      + rewrite E. exact Hr.
+      + rewrite E. right. reflexivity.
+  Qed.
+End Top.
+
+Section Header.
+  Variable value_check : field -> str -> option exc.
+
+  Lemma header_loop_ok : forall hs c,
+    validate_header_loop value_check hs c = Ok <->
+    (forall m, In m hs -> mreq m = true ->
+       present (mtag m) c /\
+       (forall f r, m = MField f r ->
+          exists s, get_tag (f_tag f) c = Some (VStr s) /\ value_check f s = None)).
+  Proof.
+    induction hs as [|m hs IH]; intro c; simpl.
+    - split; [intros _ m [] | reflexivity].
+    - destruct (mreq m) eqn:Er.
+      + destruct (has_tag (mtag m) c) eqn:Eh; simpl.
+        * destruct m as [f r|f r sub].
+          -- unfold mtag in Eh. simpl in Eh.
+             destruct (get_tag (f_tag f) c) as [[s|items]|] eqn:Eg.
+             ++ unfold check_value. destruct (value_check f s) eqn:Ev.
+                ** split; [discriminate|]. intro H. exfalso.
+                   destruct (H (MField f r) (or_introl eq_refl) Er) as [_ H2].
+                   destruct (H2 f r eq_refl) as [s' [Hs' Hv']]. congruence.
+                ** rewrite IH. split.
+                   --- intros H m' [<-|Hin] Hr'.
+                       +++ split; [apply has_tag_present; exact Eh|].
+                           intros f' r' E. inversion E; subst. exists s. auto.
+                       +++ apply H; assumption.
+                   --- intros H m' Hin Hr'. apply H; [right; exact Hin | exact Hr'].
+             ++ split; [discriminate|]. intro H. exfalso.
+                destruct (H (MField f r) (or_introl eq_refl) Er) as [_ H2].
+                destruct (H2 f r eq_refl) as [s' [Hs' _]]. congruence.
+             ++ split; [discriminate|]. intro H. exfalso.
+                destruct (H (MField f r) (or_introl eq_refl) Er) as [_ H2].
+                destruct (H2 f r eq_refl) as [s' [Hs' _]]. congruence.
+          -- rewrite IH. split.
+             ++ intros H m' [<-|Hin] Hr'.
+                ** split; [apply has_tag_present; exact Eh|]. intros f' r' E. discriminate.
+                ** apply H; assumption.
+             ++ intros H m' Hin Hr'. apply H; [right; exact Hin | exact Hr'].
+        * split; [discriminate|]. intro H. exfalso.
+          destruct (H m (or_introl eq_refl) Er) as [Hp _]. apply has_tag_present in Hp. congruence.
+      + rewrite IH. split.
+        * intros H m' [<-|Hin] Hr'; [congruence | apply H; assumption].
+        * intros H m' Hin Hr'. apply H; [right; exact Hin | exact Hr'].
+  Qed.
+
+  Lemma header_loop_class : forall hs c,
+    (forall f s e t, In (t, VStr s) c -> value_check f s = Some e -> e = EFIXMessage) ->
+    ok_or_fme (validate_header_loop value_check hs c).
+  Proof.
+    induction hs as [|m hs IH]; intros c Hc; simpl.
+    - left. reflexivity.
+    - destruct (mreq m); [|apply IH; exact Hc].
+      destruct (negb (has_tag (mtag m) c)); [right; reflexivity|].
+      destruct m as [f r|f r sub]; [|apply IH; exact Hc].
+      destruct (get_tag (f_tag f) c) as [[s|items]|] eqn:Eg; try (right; reflexivity).
+      unfold check_value. destruct (value_check f s) eqn:Ev.
+      + right. f_equal. apply (Hc f s e (f_tag f)); [apply get_tag_In; exact Eg | exact Ev].
+      + apply IH. exact Hc.
+  Qed.
+End Header.
